@@ -106,8 +106,11 @@ def value_sample(rnd, typename, depth=0, gen=None):
             pathlib.PureWindowsPath("d:/Users/Public"), path.from_windows("rel\\p"), "/é/\udcff",
         ])
     if t == "command":
+        from flow.record.fieldtypes import command
         return rnd.choice(["ls -l /tmp", r"C:\Windows\system32\cmd.exe /c dir", "/bin/echo 'a b' c", "single",
-                           r"%WINDIR%\x.dll a,b", r"'c:\path to\exe' /d /a", "/usr/bin/env"])
+                           r"%WINDIR%\x.dll a,b", r"'c:\path to\exe' /d /a", "/usr/bin/env",
+                           # an EMPTY executable (an empty quoted first word) with arguments
+                           "'' --help -v", '"" x', command.from_windows("'' /d /a"), command.from_posix("'' -x")])
     if t == "digest":
         md5 = "d41d8cd98f00b204e9800998ecf8427e"
         sha1 = "da39a3ee5e6b4b0d3255bfef95601890afd80709"
